@@ -283,6 +283,24 @@ def benches(tier):
                                outputs={"0.0": [dict(to=1), dict(to=2)], "1.0": [dict(to=3)], "2.0": [dict(to=3)]},
                                handlers={"0.0": [["send", 0]], "1.0": [["send", 0], ["send", 0]], "2.0": [["send", 0], ["send", 0]], "3.0": []}),
                     driver=[[0, 0]]))
+    if not q:
+        # thorough only: a 4-stage pipeline under back-pressure (capacity 1 everywhere, three items), the diamond with
+        # three messages per producer, and the saturated triangle with capacity 2 and a second driver command
+        out.append(dict(name="pipeline-4", props=["C02", "C03", "C12"],
+                        bench=dict(models=[M("A"), M("B"), M("C"), M("D")],
+                                   outputs={"0.0": [dict(to=1)], "1.0": [dict(to=2)], "2.0": [dict(to=3)]},
+                                   handlers={"0.0": [["send", 0], ["send", 0]], "1.0": [["send", 0]], "2.0": [["send", 0]], "3.0": []}),
+                        driver=[[0, 0]]))
+        out.append(dict(name="diamond-3", props=["C02", "C03", "C12"],
+                        bench=dict(models=[M("S"), M("P"), M("Q"), M("B")],
+                                   outputs={"0.0": [dict(to=1), dict(to=2)], "1.0": [dict(to=3)], "2.0": [dict(to=3)]},
+                                   handlers={"0.0": [["send", 0]], "1.0": [["send", 0], ["send", 0], ["send", 0]], "2.0": [["send", 0], ["send", 0]], "3.0": []}),
+                        driver=[[0, 0]]))
+        out.append(dict(name="triangle-saturated-cap2", props=["C02", "C03", "C12"],
+                        bench=dict(models=[M("A", 2), M("B", 2), M("C", 2)],
+                                   outputs={"0.0": [dict(to=1)], "0.1": [dict(to=2)], "2.0": [dict(to=1)]},
+                                   handlers={"0.0": [["send", 0], ["send", 0], ["send", 0], ["send", 1]], "2.0": [["send", 0]], "1.0": []}),
+                        driver=[[0, 0], [0, 0]]))
     # 5b. the handler of a received message depends on a sender that is blocked on the same mailbox: P sends twice to B
     #     (capacity 1) and B, handling the first message, queries P - P can only reply once its blocked send got the slot
     out.append(dict(name="handler-needs-blocked-sender", props=["C12", "C03", "C02"],
